@@ -37,6 +37,24 @@ Definition atom_text (a : atom) : option str :=
 Definition atoms_text (l : list atom) : option str :=
   option_map (join [32]) (map_opt atom_text l).
 
+(* QName values: how the prefix map an XML reader reports resolves the lexical form `p:local` /
+   `local` (XML Schema: an unprefixed QName takes the default namespace when there is one) *)
+Definition resolve_qname (ns : nsmap) (s : str) : option XmlNs.qname :=
+  match split_colon s with
+  | (None, l) => Some (default_ns ns, l)
+  | (Some p, l) => match env_get ns (Some p) with
+                   | Some ((_ :: _) as uri) => Some (Some uri, l)
+                   | _ => None
+                   end
+  end.
+(* character data `s`, reported with the prefix map `ns` in scope, reads as the atoms: plain text
+   literally; ONE QName atom through the prefix map (lists with QName atoms: not read) *)
+Definition atoms_read (ns : nsmap) (l : list atom) (s : str) : Prop :=
+  match l with
+  | [AQName q] => resolve_qname ns s = Some q
+  | _ => atoms_text l = Some s
+  end.
+
 Definition blank (s : str) : bool := forallb xml_ws s.
 Definition blank_o (o : option str) : bool := match o with Some s => blank s | None => true end.
 
@@ -54,7 +72,7 @@ Fixpoint reads (e : XmlNs.enode) (pevs : list pevent) {struct e} : Prop :=
         /\ reads_attrs eats attrs /\ blank_o tail = true
         /\ match ekids with
            | [] => text = None /\ kes = []
-           | [EData atoms] => exists s, atoms_text atoms = Some s /\ s <> [] /\ text = Some s /\ kes = []
+           | [EData atoms] => exists s, atoms_read ns atoms s /\ s <> [] /\ text = Some s /\ kes = []
            | _ =>
                blank_o text = true
                /\ (fix rk (ks : list XmlNs.enode) (kes : list pevent) {struct ks} : Prop :=
@@ -185,11 +203,15 @@ Definition prim_ptype (p : prim) : ptype :=
    C05_bool_roundtrip, C05_int_roundtrip, C05_hex_roundtrip, C05_base64_roundtrip,
    C05_decimal_roundtrip, C05_float_roundtrip, C05_enum_roundtrip ...; C06 for the date
    and time types): on the values `ok` accepts, deserializing the written text under the
-   value's own type gives the value back, whatever prefix map is in scope. *)
+   value's own type gives the value back, whatever prefix map is in scope; a QName value comes
+   back from every lexical form that resolves to it under the prefix map in scope. *)
 Definition conv_roundtrips (c : conv) (u : universe) (ok : prim -> bool) : Prop :=
-  forall fmt ns p s,
-    ok p = true -> ptext c u fmt p = Some s ->
-    c_deser c [prim_ptype p] fmt ns s = Some p.
+  (forall fmt ns p s,
+     ok p = true -> ptext c u fmt p = Some s ->
+     c_deser c [prim_ptype p] fmt ns s = Some p)
+  /\ (forall fmt ns q s,
+        ok (PQName q) = true -> resolve_qname ns s = Some (split_qname q) ->
+        c_deser c [TQName] fmt ns s = Some (PQName q)).
 
 Definition nonempty_s (s : str) : bool := match s with [] => false | _ => true end.
 Definition no_space (s : str) : bool := negb (existsb (fun ch => xml_ws ch) s).
@@ -217,6 +239,12 @@ Section Guards.
               && negb (existsb pyspace (leaf_text fmt p))
     | _ => false
     end.
+
+  (* a QName value (element fields only): an NCName local part; rendered by the writer with a
+     prefix of its choice, read back through the prefix map in scope (resolve_qname) *)
+  Definition qname_ok (q : qname) : bool := is_ncname (snd (split_qname q)).
+  Definition qleaf_ok (p : prim) : bool :=
+    ok p && match p with PQName q => qname_ok q | _ => false end.
 
   Definition is_tuple (f : factory) : bool := match f with FTuple => true | FList => false end.
   Definition factory_default (f : factory) (d : vdefault) : bool :=
@@ -290,6 +318,13 @@ Section Guards.
     && match var_type v with
        | Some (TClass k) =>
            opt_eqb N.eqb (v_clazz v) (Some k)
+           && match v_tokens_factory v with None => true | Some _ => false end
+           && match v_factory v with
+              | None => match v_default v with DNone => true | _ => false end
+              | Some f => factory_default f (v_default v)
+              end
+       | Some TQName =>
+           match v_clazz v with None => true | Some _ => false end
            && match v_tokens_factory v with None => true | Some _ => false end
            && match v_factory v with
               | None => match v_default v with DNone => true | _ => false end
@@ -441,6 +476,7 @@ Section Guards.
   Definition fits_item (rec : cls -> value -> bool) (v : xvar) (x : value) : bool :=
     match vtype v with
     | TClass k => match x with VObj _ _ => rec k x | _ => false end
+    | TQName => match x with VP p => qleaf_ok p | _ => false end
     | t => match x with VP p => leaf_ok t (v_format v) p && empty_ok v p | _ => false end
     end.
   Definition fits_tokens (v : xvar) (f : factory) (x : value) : bool :=
@@ -492,6 +528,18 @@ Section Guards.
     | _, _ => false
     end.
 End Guards.
+
+(* no QName value anywhere in the instance (the canonical reader stream `pump` and the text-level
+   theorems are stated for these: a QName needs a prefix binding) *)
+Fixpoint noq (v : value) : bool :=
+  let fix nl (l : list value) : bool := match l with [] => true | x :: r => noq x && nl r end in
+  let fix nf (l : list (str * value)) : bool := match l with [] => true | (_, x) :: r => noq x && nf r end in
+  match v with
+  | VP (PQName _) => false
+  | VList _ l => nl l
+  | VObj _ fs => nf fs
+  | _ => true
+  end.
 
 Fixpoint odepth (v : value) : nat :=
   let fix dl (l : list value) : nat := match l with [] => O | x :: r => Nat.max (odepth x) (dl r) end in
